@@ -19,6 +19,7 @@ import math
 import multiprocessing
 import os
 import shutil
+import signal
 import tempfile
 import uuid
 
@@ -80,6 +81,20 @@ def _cleanup_base():
         _BASE["dir"] = None
 
 
+def _on_sigterm(signum, frame):
+    """`kill <check>`: take the workers and the temp dir down with us (atexit does not run on SIGTERM and
+    unwinding through multiprocessing.Pool from a signal handler can hang)."""
+    if _BASE["pid"] == os.getpid():
+        for child in multiprocessing.active_children():
+            try:
+                child.kill()
+            except Exception:
+                pass
+        if _BASE["dir"]:
+            shutil.rmtree(_BASE["dir"], ignore_errors=True)
+    os._exit(143)
+
+
 def _base_dir():
     """Directory under /tmp that holds all Tiled storage of this check run (created by the first caller,
     inherited by forked workers, removed by its creator)."""
@@ -87,6 +102,11 @@ def _base_dir():
         _BASE["dir"] = tempfile.mkdtemp(prefix=f"vf_c46_{os.getpid()}_", dir="/tmp")
         _BASE["pid"] = os.getpid()
         atexit.register(_cleanup_base)
+        try:  # make a plain `kill` of the check run the clean-up too
+            if signal.getsignal(signal.SIGTERM) is signal.SIG_DFL:
+                signal.signal(signal.SIGTERM, _on_sigterm)
+        except ValueError:  # not the main thread
+            pass
     return _BASE["dir"]
 
 
@@ -104,6 +124,11 @@ def _client():
     if _STATE["pid"] != os.getpid():
         if _STATE["ctx"] is not None:  # forked copy of another process's client: never touch it
             _GRAVEYARD.append(dict(_STATE))
+        if _BASE["pid"] is not None and _BASE["pid"] != os.getpid():
+            try:  # worker process: die silently on SIGTERM (the parent owns the clean-up)
+                signal.signal(signal.SIGTERM, signal.SIG_DFL)
+            except ValueError:
+                pass
         try:
             from tiled.catalog import in_memory
             from tiled.client import Context, from_context
@@ -690,6 +715,8 @@ def _strategy():
             return s
         n = draw(st.sampled_from(list(range(2, max_events + 1)) + [0, 1] + list(range(2, max_events + 1))))
         names = draw(st.lists(st.sampled_from(_INT_NAMES), max_size=3, unique=True))
+        if not names and not exts:
+            names = ["x"]  # a stream without any data key exercises nothing
         if reserved:
             names.append(draw(st.sampled_from(list(RESERVED))))
         keys, cols = [], {}
